@@ -32,7 +32,8 @@ LEVEL_TEXT = (
     "positions and value-based deletion. That the selected run is the intended one is value-level and not decided.")
 LEVEL_NOTE = "Trusted: the interval domain (E5) with len(S) >= 0 as its only arithmetic fact about lengths."
 ASSUMPTIONS = []
-FLOORS = {"C15.bounds": 16, "C15.position": 2, "C15.normal": 4}
+SEQ_NATIVES = {"find", "find_last", "substr", "sublist", "insert_at", "delete_at"}
+FLOORS = {"C15.bind": 6, "C15.bounds": 16, "C15.position": 2, "C15.normal": 4}
 
 ANCHORS = [("NodeDeref", "evaluate"), ("NodeDerefAssign", "evaluate"), ("NodeDerefSlice", "evaluate"),
            ("FuncSublist", "execute"), ("FuncSubstr", "execute"), ("FuncFind", "execute"),
@@ -44,6 +45,17 @@ SEQS = {"s", "lst", "value", "self.value", "result", "obj.value"}
 def run(ctx):
     model = ctx.model
     engine = Engine(model)
+    # the bundled modules hand the sequence natives out under their own names (List->find_last is find_last)
+    from .C19 import bound_names
+    from .. import cklsrc
+    bound_names(ctx, model, rule="C15.bind", prop=P, only=SEQ_NATIVES)
+    seen = {nat for fn, (src, _) in model.ckl_modules.items()
+            for nat, alias, _l in cklsrc.bind_native_calls(cklsrc.tokenize(src))[0] if alias in (None, nat)}
+    for nat in sorted(SEQ_NATIVES):
+        ctx.ob("C15.bind", f"modules: `{nat}` is exported by the bundled modules only under its own name",
+               nat in seen)
+        if nat not in seen:
+            ctx.broken(f"modules/*.ckl", f"no bind_native({nat!r}) found in the bundled modules")
     for qual in ANCHORS:
         m = model.method(P, *qual)
         b = Bounds(m.node, summaries=bounds_summaries(model, m))
